@@ -74,7 +74,21 @@ def scanner_cases(ck, scratch):
                     continue  # same cut as a smaller width
                 recs.append(('x%d' % n, wrap(seq, w)))
                 n += 1
-    ck.extra['exhaustive_scope'] = 'all sequences over {N,A} of length <= %d x line widths 1..5: %d records' % (L, n)
+    # blank lines (skipped by the scanner since fix 784419a): one blank line at every position of every cut
+    LB = 5 if ck.tier == 'quick' else 7
+    nb = 0
+    for length in range(0, LB + 1):
+        for tup in itertools.product('NA', repeat=length):
+            seq = ''.join(tup)
+            for w in (1, 2, 3):
+                if w > max(1, length) and w != 1:
+                    continue
+                lines = wrap(seq, w)
+                for p in range(len(lines) + 1):
+                    recs.append(('xb%d' % nb, lines[:p] + [''] + lines[p:]))
+                    nb += 1
+    ck.extra['exhaustive_scope'] = ('all sequences over {N,A} of length <= %d x line widths 1..5: %d records; plus all of length <= %d x '
+                                    'widths 1..3 x one blank line at every position: %d records' % (L, n, LB, nb))
     nrand = 400 if ck.tier == 'quick' else 20000
     for i in range(nrand):
         seq = rand_seq(ck.rng)
@@ -85,7 +99,11 @@ def scanner_cases(ck, scratch):
             if rs:
                 a, b = ck.rng.choice(rs)
                 w = max(1, min(80, ck.rng.choice([a, b, b - a, a + 1, b + 1, max(1, b - 1)]) or 1))
-        recs.append(('r%d' % i, wrap(seq, w)))
+        lines = wrap(seq, w)
+        if ck.rng.random() < 0.3:     # blank lines anywhere, also several in a row
+            for _ in range(ck.rng.randint(1, 3)):
+                lines.insert(ck.rng.randint(0, len(lines)), '')
+        recs.append(('r%d' % i, lines))
     return recs
 
 
@@ -126,14 +144,13 @@ def check_scanner(ck, scratch):
     for (name, lines), m in zip(edge, model):
         c = got.get(name.split()[0], [])
         m = [tuple(x) for x in m]
-        ck.count(['scan-edge', lines], nontrivial=False, cls='scan:edge')
-        blank_inside = '' in lines
         exp = py_runs(''.join(lines))
-        if not blank_inside and c != exp:
-            ck.violation('get_regions wrong with CRLF line ends', {'lines': lines, 'eol': 'CRLF'}, code=c, expected=exp,
-                         clause='C13_scan')
+        ck.count(['scan-crlf', lines], nontrivial=('' in lines and len(exp) > 0), cls='scan:crlf+blank')
+        if c != exp:
+            ck.violation('get_regions wrong with CRLF line ends / blank lines / a header description',
+                         {'lines': lines, 'eol': 'CRLF'}, code=c, expected=exp, clause='C13_scan')
         elif c != m:
-            ck.tie_break('model differs from get_regions on the edge stream', {'lines': lines}, code=c, model=m)
+            ck.tie_break('model differs from get_regions on the CRLF / blank-line stream', {'lines': lines}, code=c, model=m)
 
 
 def check_join(ck):
@@ -225,94 +242,391 @@ def py_noncanonical(nm):
             or nm.endswith('_alt') or (len(nm) >= 4 and nm[-4:-1] == 'hap' and nm[-1] in '0123456789') or 'chrM' in nm or 'MT' in nm)
 
 
-def check_pipeline(ck, scratch):
-    """do_access end to end against the per-base bitmap oracle."""
+WS_TRAIL = ['', '', '', ' ', '\t', ' \t ', '\x0c', '\x1f']
+EOLS = ['\n', '\n', '\r\n', '\r']
+SEQ_NAMES = ['chr1', 'chr2', 'chrX', 'chrM', 'chr1_KI270706v1_random', 'chrUn_x', 'chr3_alt', 'chr9', 'chr10', '2', 'MT', 'HLA-A*01:01',
+             'chrEBV', 'scaffold>7', 'c']
+
+
+def cut(rng, seq):
+    """cut a sequence into non-empty lines of varying widths (the FASTA line width is not fixed by the property)"""
+    if not seq:
+        return []
+    if rng.random() < 0.5:
+        return wrap(seq, rng.choice([1, 2, 3, 5, 7, 10, 50, 60, 70, 80, rng.randint(1, 80)]))
+    out, i = [], 0
+    while i < len(seq):
+        w = rng.choice([1, 2, 3, rng.randint(1, 12), rng.randint(1, 80)])
+        out.append(seq[i:i + w])
+        i += w
+    return out
+
+
+BLANK_LINES = ['', '', '', ' ', '\t', '  \t', '\x0c']
+
+
+def render_fasta(rng, recs, eol='\n', final_newline=True, trail=False, mixed_eol=False, blank=False):
+    """recs: (name, desc, lines) -> the file's text (well-formed).  blank=True sprinkles blank / white-space-only lines
+    anywhere: before the first header, inside sequences, between records, at the end of the file."""
+    parts = []
+
+    def blanks(p):
+        while blank and rng.random() < p:
+            parts.append(rng.choice(BLANK_LINES) + (rng.choice(EOLS) if mixed_eol else eol))
+
+    blanks(0.3)
+    for name, desc, lines in recs:
+        parts.append('>' + name + desc + (rng.choice(EOLS) if mixed_eol else eol))
+        blanks(0.15)
+        for l in lines:
+            parts.append(l + (rng.choice(WS_TRAIL) if trail else '') + (rng.choice(EOLS) if mixed_eol else eol))
+            blanks(0.15)
+        blanks(0.3)
+    txt = ''.join(parts)
+    if not final_newline and txt:
+        # drop the last line terminator (a file not ending in a newline)
+        txt = txt[:-2] if txt.endswith('\r\n') else txt[:-1]
+    return txt
+
+
+def write_text(path, txt):
+    with open(path, 'w', newline='', encoding='ascii') as fh:
+        fh.write(txt)
+
+
+def code_regions_flat(path):
     from cnvlib import access
-    n = 60 if ck.tier == 'quick' else 1500
+    try:
+        return [(str(c), int(s), int(e)) for c, s, e in access.get_regions(path)]
+    except TypeError:      # a sequence line before the first header: cursor is None
+        return Err('sequence line before the first header')
+
+
+def rand_desc(rng):
+    return rng.choice(['', '', ' desc', '\tdesc here', ' dna:chromosome  chromosome:GRCh37', '  ', ' >x'])
+
+
+def py_lines(path):
+    """the lines the code iterates over (text mode, universal newlines), terminator removed"""
+    with open(path) as fh:
+        return [l[:-1] if l.endswith('\n') else l for l in fh]
+
+
+def mutate_text(rng, txt):
+    """malformed / edge FASTA text: blank lines, leading blanks, '>' inside, sequence before the first header ..."""
+    for _ in range(rng.randint(1, 3)):
+        p = rng.randint(0, len(txt))
+        ins = rng.choice(['\n', '\n\n', '\r\n\r\n', ' ', '  \n', '\n ', '>', '\n>', '\n>\n', '\r', '\x0c', 'N', 'n', '\n> chrZ\n', '\nN\n',
+                          '\t\n'])
+        op = rng.random()
+        if op < 0.7:
+            txt = txt[:p] + ins + txt[p:]
+        elif op < 0.85 and txt:
+            q = min(len(txt), p + rng.randint(1, 8))
+            txt = txt[:p] + txt[q:]
+        else:
+            txt = txt.lstrip('>')
+    return txt
+
+
+# blank lines: the failing inputs of the defect fixed in 784419a (an empty region after `N <blank line> N` / `N <blank line> EOF`)
+# and blank lines inside a run, before the first header, between records -- with the regions the property demands
+CORPUS_VALID_TEXTS = [('>chr1\nNN\n\n', []), ('>chr1\nACN\n\nNGT\n', [('chr1', 0, 2), ('chr1', 4, 6)]),
+                      ('>chr1\nACN\n\n>chr2\nNN\n\n', [('chr1', 0, 2)]), ('>chr1\nAC\n\nGT\n', [('chr1', 0, 4)]),
+                      ('\n>chr1\nAC\n', [('chr1', 0, 2)]), ('\r\n  \n>chr1\n\nA\n \nCN\n\t\n\n>chr2\n\n', [('chr1', 0, 2)]),
+                      ('>chr1\n\n', []), ('\n', []), ('>chr1\nNA\n\nAN\n\n\nNA\n\n', [('chr1', 1, 3), ('chr1', 5, 6)])]
+CORPUS_TEXTS = ['', '>chr1', '>chr1\n', 'ACGT\n', '\nACGT\n>chr1\nAC\n',
+                '>\nACNGT\n', '> chr1\nACNGT\n', '>chr1\n  ACNGT\nNNA\n', '>chr1\nAC GT\nNNA\n', '>chr1\rACNGT\rNNA\r',
+                '>chr1\nAC\x0cNGT\n', '>chr1\nACGT\n>chr2\nAC\n>chr1\nNNAC\n', '>chr1\nA>C\n>\n>chr2 x\nN\n', '>chr1\nACnnGT\nnnNN\nA']
+
+
+def check_text(ck, scratch):
+    """the FASTA text layer: line splitting, header parsing, rstrip, the scanner on the file's text."""
+    rng = ck.rng
+    # (1) the model's text primitives against the Python built-ins the code calls (infrastructure consistency)
+    alphabet = 'ANnac> \t\n\r\x0b\x0c\x1c\x1f\n\r'
+    texts = ['', '\n', '\r', '\r\n', '\n\r', 'A', 'A\n', 'A\r\nB', 'A\rB\n', 'A\n\nB', '\r\r\n\n', '>x\r', '>x y\nAN\n']
+    for _ in range(300 if ck.tier == 'quick' else 4000):
+        texts.append(''.join(rng.choice(alphabet) for _ in range(rng.randint(0, 24))))
+    pth = os.path.join(scratch, 'prim.txt')
+    for t, m in zip(texts, vlib.model_batch('c13_lines', texts)):
+        write_text(pth, t)
+        if py_lines(pth) != m:
+            raise RuntimeError('Model lines_of differs from text-mode file iteration on %r: %r vs %r' % (t, m, py_lines(pth)))
+    singles = [t.replace('\n', '').replace('\r', '') for t in texts]
+    for t, m in zip(singles, vlib.model_batch('c13_rstrip', singles)):
+        if t.rstrip() != m:
+            raise RuntimeError('Model rstrip differs from str.rstrip on %r' % t)
+    heads = ['>' + t for t in singles]
+    for t, m in zip(heads, vlib.model_batch('c13_header_name', heads)):
+        if t.split(None, 1)[0][1:] != m:
+            raise RuntimeError('Model header_name differs from line.split(None, 1)[0][1:] on %r' % t)
+    ck.extra['text_primitives_checked'] = 3 * len(texts)
+    # (2) well-formed FASTA texts: every cut into lines, LF / CRLF / CR, trailing blanks, descriptions, no final newline
+    cases = []
+    n = 250 if ck.tier == 'quick' else 6000
     for i in range(n):
-        nseq = ck.rng.randint(1, 4)
-        names = ck.rng.sample(['chr1', 'chr2', 'chrX', 'chrM', 'chr1_KI270706v1_random', 'chrUn_x', 'chr3_alt', 'chr9'], nseq)
-        recs, seqs = [], {}
-        for nm in names:
-            seq = rand_seq(ck.rng, 8, 120)
-            seqs[nm] = seq
-            recs.append((nm, wrap(seq, ck.rng.randint(1, 80))))
-        fa = os.path.join(scratch, 'p%d.fa' % i)
-        write_fasta(fa, recs)
-        exfiles, exrows_all = [], []
-        for j in range(ck.rng.randint(0, 3)):
-            rows = []
-            for _ in range(ck.rng.randint(1, 5)):
-                nm = ck.rng.choice(names)
-                L = max(1, len(seqs[nm]))
-                rs = py_runs(seqs[nm])
-                lo = ck.rng.randint(0, L)
-                if rs and ck.rng.random() < 0.5:
-                    a, b = ck.rng.choice(rs)
-                    lo = ck.rng.choice([a, b, max(0, a - 1), a + 1, max(0, b - 1)])
-                hi = lo + ck.rng.randint(1, max(1, L // 2))
-                rows.append((nm, lo, hi))
-                if ck.rng.random() < 0.3:     # nested / overlapping
-                    lo2 = lo + ck.rng.randint(0, 3)
-                    rows.append((nm, lo2, max(lo2 + 1, hi - ck.rng.randint(0, 3))))
-            ex = os.path.join(scratch, 'p%d_ex%d.bed' % (i, j))
-            with open(ex, 'w') as fh:
-                for r in rows:
-                    fh.write('%s\t%d\t%d\n' % r)
-            exfiles.append(ex)
-            exrows_all.append(rows)
-        gap = ck.rng.choice([0, 1, 2, 5, 10, 50, 300, ck.rng.randint(0, 300)])
-        skip = ck.rng.random() < 0.5
-        case = {'records': recs, 'excludes': exrows_all, 'min_gap': gap, 'skip_noncanonical': skip}
-        # expectation from bitmaps
-        exp = {}
-        for nm in names:
-            if skip and py_noncanonical(nm):
-                continue
-            seq = seqs[nm]
-            ok = [c != 'N' for c in seq]
-            for rows in exrows_all:
-                for (c, lo, hi) in rows:
-                    if c == nm:
-                        for x in range(lo, min(hi, len(ok))):
-                            ok[x] = False
-            rs = py_runs(''.join('A' if b else 'N' for b in ok))
-            if rs:
-                exp[nm] = py_join(rs, gap)
-        try:
-            out = access.do_access(fa, exfiles, gap, skip)
-            code = {}
-            for row in out:
-                code.setdefault(row.chromosome, []).append((int(row.start), int(row.end)))
-        except Exception as e:   # noqa
-            code = Err(type(e).__name__ + ': ' + str(e)[:100])
-        nontriv = bool(exp) and bool(exrows_all)
-        ck.count(['access', case], nontrivial=nontriv, cls='pipeline:%d-excl' % len(exfiles))
-        if isinstance(code, Err):
-            if not exp and not any(py_runs(s) for nm, s in seqs.items() if not (skip and py_noncanonical(nm))):
-                ck.cls('pipeline:no-regions-error')
-                continue   # nothing accessible at all: outside the claim (empty table)
-            ck.violation('do_access raised %s' % code.msg, case, code=code, expected=exp, clause='C13_exclude')
-        elif code != exp:
-            ck.violation('do_access regions differ from non-N minus excluded, joined', case, code=code, expected=exp,
-                         clause='C13_exclude/C13_join')
+        recs, exp = [], []
+        for j in range(rng.choice([1, 1, 2, 3, 4])):
+            name = rng.choice(SEQ_NAMES) if rng.random() < 0.8 else 's%d' % j
+            seq = rand_seq(rng, 6, 60 if ck.tier == 'quick' else 200)
+            recs.append((name, rand_desc(rng), cut(rng, seq)))
+            exp.extend((name, a, b) for a, b in py_runs(seq))
+        txt = render_fasta(rng, recs, eol=rng.choice(EOLS), final_newline=rng.random() < 0.7, trail=rng.random() < 0.3,
+                           mixed_eol=rng.random() < 0.15, blank=rng.random() < 0.4)
+        cases.append((txt, exp, True))
+    for t, exp in CORPUS_VALID_TEXTS:
+        cases.append((t, exp, True))
+    # (3) edge / malformed texts: the model mirrors the code, no oracle
+    for i in range(150 if ck.tier == 'quick' else 3000):
+        base = cases[rng.randrange(n)][0] if rng.random() < 0.8 else ''.join(rng.choice('ANn> \n\r\t') for _ in range(rng.randint(0, 20)))
+        cases.append((mutate_text(rng, base), None, False))
+    for t in CORPUS_TEXTS:
+        cases.append((t, None, False))
+    model = vlib.model_batch_parallel('c13_regions_text', [c[0] for c in cases])
+    pth = os.path.join(scratch, 'text.fa')
+    for (txt, exp, valid), m in zip(cases, model):
+        write_text(pth, txt)
+        c = code_regions_flat(pth)
+        mm = m if isinstance(m, Err) else [tuple(x) for x in m]
+        ck.count(['text', txt], nontrivial=valid and len(exp) > 0, cls='text:%s' % ('wellformed' if valid else 'edge'))
+        if valid and c != exp:
+            ck.violation('get_regions on a well-formed FASTA text does not return the maximal non-N runs per sequence',
+                         {'text': txt}, code=c, expected=exp, clause='C13_text')
+        elif c != mm:
+            ck.tie_break('model get_regions_text differs from get_regions', {'text': txt}, code=c, model=mm)
+
+
+def bitmap_expect(seqs, exrows_all, gap, skip):
+    """independent per-base oracle: non-N bases not excluded, maximal runs, gaps < gap bridged; sequences in file order"""
+    exp = []
+    for nm, seq in seqs:
+        if skip and py_noncanonical(nm):
+            continue
+        ok = [c != 'N' for c in seq]
+        for rows in exrows_all:
+            for (c, lo, hi) in rows:
+                if c == nm:
+                    for x in range(max(lo, 0), min(hi, len(ok))):
+                        ok[x] = False
+        rs = py_runs(''.join('A' if b else 'N' for b in ok))
+        if rs:
+            exp.extend((nm, a, b) for a, b in py_join(rs, gap or 0))
+    return exp
+
+
+def run_access(scratch, txt, exrows_all, gap, skip, tag='p'):
+    from cnvlib import access
+    fa = os.path.join(scratch, tag + '.fa')
+    write_text(fa, txt)
+    exfiles = []
+    for j, rows in enumerate(exrows_all):
+        ex = os.path.join(scratch, '%s_ex%d.bed' % (tag, j))
+        with open(ex, 'w') as fh:
+            for r in rows:
+                fh.write('%s\t%d\t%d\n' % tuple(r))
+        exfiles.append(ex)
+    try:
+        out = access.do_access(fa, exfiles, gap, skip)
+        code = [(str(row.chromosome), int(row.start), int(row.end)) for row in out]
+    except AssertionError:
+        code = Err('assert gap > 0')
+    except TypeError:
+        code = Err('sequence line before the first header')
+    finally:
         os.remove(fa)
         for ex in exfiles:
             os.remove(ex)
+    return code
+
+
+def gen_excludes(rng, names, seqs, extra_names=()):
+    exrows_all = []
+    for j in range(rng.choice([0, 1, 1, 2, 3])):
+        rows = []
+        for _ in range(rng.randint(1, 5)):
+            nm = rng.choice(names + list(extra_names))
+            seq = seqs.get(nm, 'A' * 50)
+            L = max(1, len(seq))
+            rs = py_runs(seq)
+            lo, hi = rng.randint(0, L), None
+            if rs and rng.random() < 0.6:
+                a, b = rng.choice(rs)
+                lo = rng.choice([a, b, max(0, a - 1), a + 1, max(0, b - 1)])
+                r = rng.random()
+                if r < 0.25:      # removes a whole run
+                    lo, hi = rng.choice([(a, b), (max(0, a - 1), b + 1), (a, b + 1), (max(0, a - 2), b)])
+                elif r < 0.35:    # leaves nothing
+                    lo, hi = 0, L + rng.randint(0, 3)
+            if hi is None:
+                hi = lo + rng.randint(1, max(1, L // 2))
+            rows.append((nm, lo, hi))
+            if rng.random() < 0.3:     # nested / overlapping
+                lo2 = lo + rng.randint(0, 3)
+                rows.append((nm, lo2, max(lo2 + 1, hi - rng.randint(0, 3))))
+            if rng.random() < 0.15:    # touching the previous row's end
+                rows.append((nm, hi, hi + rng.randint(1, 4)))
+        exrows_all.append(rows)
+    return exrows_all
+
+
+def load_corpus():
+    import json
+    p = os.path.join(vlib.VERIF, 'corpus', 'c13.json')
+    return json.load(open(p)) if os.path.exists(p) else []
+
+
+def check_pipeline(ck, scratch):
+    """do_access end to end: against the per-base bitmap oracle and against the model (FASTA text in, table out)."""
+    rng = ck.rng
+    n = 220 if ck.tier == 'quick' else 3000
+    cases = [dict(c, corpus=True) for c in load_corpus()]
+    ck.extra['corpus_cases'] = len(cases)
+    for i in range(n):
+        names = rng.sample(SEQ_NAMES, rng.randint(1, 4))
+        recs, seqs = [], {}
+        for nm in names:
+            seq = rand_seq(rng, 8, 120)
+            if rng.random() < 0.1:
+                seq = rng.choice(['', 'N' * rng.randint(1, 9), 'A' * rng.randint(1, 9)])
+            seqs[nm] = seq
+            recs.append((nm, rand_desc(rng), cut(rng, seq)))
+        txt = render_fasta(rng, recs, eol=rng.choice(EOLS), final_newline=rng.random() < 0.8, trail=rng.random() < 0.2,
+                           blank=rng.random() < 0.3)
+        exrows_all = gen_excludes(rng, names, seqs, extra_names=['chr7', 'chrZ'] if rng.random() < 0.3 else ())
+        gap = rng.choice([0, 0, 1, 2, 5, 10, 50, 300, None, rng.randint(0, 300)])
+        skip = rng.random() < 0.5
+        valid = True
+        if i % 10 == 9:
+            # edge stream: duplicate sequence names / zero-width exclude rows / malformed text -- the model mirrors the code
+            valid = False
+            r = rng.random()
+            if r < 0.4 and len(recs) > 1:
+                recs[-1] = (recs[0][0],) + recs[-1][1:]
+                txt = render_fasta(rng, recs)
+            elif r < 0.7 and exrows_all and exrows_all[0]:
+                nm, lo, hi = exrows_all[0][0]
+                exrows_all[0].append((nm, lo + 1, lo + 1))
+            else:
+                txt = mutate_text(rng, txt)
+        cases.append({'text': txt, 'seqs': [(nm, seqs[nm]) for nm in names], 'excludes': exrows_all, 'min_gap': gap,
+                      'skip_noncanonical': skip, 'valid': valid})
+    model = vlib.model_batch_parallel('c13_access_text', [[c['min_gap'], c['skip_noncanonical'], c['text'],
+                                                          [[list(r) for r in rows] for rows in c['excludes']]] for c in cases])
+    for case, m in zip(cases, model):
+        exrows_all = [[tuple(r) for r in rows] for rows in case['excludes']]
+        gap, skip, valid = case['min_gap'], case['skip_noncanonical'], case['valid']
+        code = run_access(scratch, case['text'], exrows_all, gap, skip)
+        mm = m if isinstance(m, Err) else [tuple(x) for x in m]
+        exp = bitmap_expect([tuple(x) for x in case['seqs']], exrows_all, gap, skip) if valid else None
+        ck.count(['access', case], nontrivial=bool(exp) and bool(exrows_all),
+                 cls='pipeline:%s' % ('corpus' if case.get('corpus') else ('%d-excl' % len(exrows_all)) if valid else 'edge'))
+        rec = {k: case[k] for k in ('text', 'seqs', 'excludes', 'min_gap', 'skip_noncanonical', 'valid')}
+        if valid and isinstance(code, Err):
+            ck.violation('do_access raised (%s) on a well-formed input' % code.msg, rec, code=code, expected=exp, clause='C13_pipeline')
+        elif valid and code != exp:
+            ck.violation('do_access differs from (non-N minus excluded), joined over gaps below the minimum, per sequence in file order',
+                         rec, code=code, expected=exp, clause='C13_pipeline/C13_genome')
+        elif code != mm:
+            ck.tie_break('model do_access_text differs from do_access', rec, code=code, model=mm)
+
+
+def check_sequence(ck):
+    """the model's per-sequence pipeline (access_sequence) against subtract + join_regions of the code on one chromosome."""
+    from cnvlib import access
+    from skgenome import GenomicArray as GA
+    rng = ck.rng
+    cases = []
+    for i in range(250 if ck.tier == 'quick' else 5000):
+        pos, runs = rng.randint(0, 5), []
+        for _ in range(rng.randint(0, 6)):
+            ln = rng.randint(1, 30)
+            runs.append((pos, pos + ln))
+            pos += ln + rng.choice([1, 1, 2, 3, rng.randint(1, 40)])
+        excls = []
+        for _ in range(rng.choice([0, 1, 1, 2, 3])):
+            ex = []
+            for _ in range(rng.randint(1, 5)):
+                if runs and rng.random() < 0.7:
+                    a, b = rng.choice(runs)
+                    lo = rng.choice([a, a, a - 1, a + 1, b - 1, b, rng.randint(a, b)])
+                    hi = rng.choice([b, b, b + 1, b - 1, lo + 1, lo + rng.randint(1, 50)])
+                else:
+                    lo = rng.randint(0, pos + 2)
+                    hi = lo + rng.randint(1, 60)
+                lo = max(lo, 0)
+                ex.append((lo, max(hi, lo + 1)))
+            excls.append(sorted(ex))
+        g = rng.choice([0, 1, 2, 3, 5, 10, 50, rng.randint(0, 60)])
+        cases.append((g, runs, excls))
+    model = vlib.model_batch('c13_sequence', [[g, [list(r) for r in runs], [[list(r) for r in ex] for ex in excls]]
+                                              for g, runs, excls in cases])
+    for (g, runs, excls), m in zip(cases, model):
+        mm = m if isinstance(m, Err) else [tuple(x) for x in m]
+        try:
+            ga = GA.from_rows([('chr1', s, e) for s, e in runs])
+            for ex in excls:
+                ga = ga.subtract(GA.from_rows([('chr1', s, e) for s, e in ex]))
+            c = [(int(s), int(e)) for _, s, e in access.join_regions(ga, g)]
+        except AssertionError:
+            c = Err('assert gap > 0')
+        L = (runs[-1][1] if runs else 0) + 2
+        ok = [False] * L
+        for a, b in runs:
+            for x in range(a, b):
+                ok[x] = True
+        for ex in excls:
+            for a, b in ex:
+                for x in range(a, min(b, L)):
+                    ok[x] = False
+        rs = py_runs(''.join('A' if b else 'N' for b in ok))
+        exp = py_join(rs, g) if rs else []
+        ck.count(['sequence', g, runs, excls], nontrivial=bool(excls) and bool(exp), cls='sequence')
+        if c != exp:
+            ck.violation('subtract + join_regions on one sequence differ from the per-base expectation',
+                         {'gap': g, 'runs': runs, 'excls': excls}, code=c, expected=exp, clause='C13_pipeline')
+        elif c != mm:
+            ck.tie_break('model access_sequence differs from subtract + join_regions', {'gap': g, 'runs': runs, 'excls': excls},
+                         code=c, model=mm)
 
 
 def run(ck, scratch):
-    ck.rule = ('scanner: exhaustive {N,A}-sequences x line widths plus random N/n/ACGT/acgt run sequences with line breaks '
-               'placed at run boundaries; join_regions: random sorted region lists x gap sizes around the minimum; contig rule: '
-               'curated + mutated names; pipeline: random FASTA x exclude BEDs (nested/overlapping/touching) x gap x skip flag. '
-               'non-trivial = sequence has both N and non-N / >1 region / non-canonical name / excludes present; distinct by case hash')
+    ck.rule = ('scanner: exhaustive {N,A}-sequences x line widths (plus one blank line at every position of the smaller scope) plus '
+               'random N/n/ACGT/acgt run sequences with line breaks placed at run boundaries and blank lines sprinkled in; '
+               'join_regions: random sorted region lists x gap sizes around the minimum; contig rule: '
+               'curated + mutated names; text layer: well-formed FASTA texts (1..4 records, descriptions, sequences cut into lines '
+               'of varying widths, LF/CRLF/CR per file or per line, trailing blanks, blank and white-space-only lines before the '
+               'first header / inside sequences / between records / at EOF, with/without final newline) against the '
+               'per-record maximal-run oracle, plus an edge stream of mutated texts (leading blanks, stray ">", '
+               'sequence before the first header) model-vs-code; per-sequence pipeline: random separated runs x 0..3 sorted exclude '
+               'tables (touching run edges, removing whole runs, nested) x gap; do_access end to end: random FASTA texts x '
+               'exclude BEDs (nested/overlapping/touching/whole-run/everything, chromosomes absent from the FASTA, unsorted file '
+               'order) x min_gap in {0, None, 1..300} x skip flag against the per-base bitmap oracle AND the model, every 10th '
+               'case from the edge stream (duplicate names, zero-width exclude rows, malformed text) model-vs-code only. '
+               'non-trivial = sequence has both N and non-N / >1 region / non-canonical name / excludes present and a non-empty '
+               'result; distinct by case hash')
     ck.exhaustive = True
     ck.explanation = 'exhaustive: true refers to the enumerated scanner scope only (coverage.exhaustive_scope)'
+    ck.unproved_remainder = [
+        'faithfulness of the models to the Python code (generators, pandas groupby/from_records, by_ranges selection of '
+        'overlapping exclude rows, tabio.read sorting, text-mode universal newlines, str.rstrip/split): correspondence-checked on '
+        'every generated case, tied by the pinned source lines (C13_source_*), not proved',
+        'BED parsing of the exclude files (tabio.read "bed3": track/comment lines, extra columns) is outside the model: exclude '
+        'tables enter as (chromosome, start, end) rows in file order',
+        'FASTA texts outside the well-formed class of C13_text (leading or inner white space in a sequence line, a sequence line '
+        'starting with ">", a non-blank sequence line before the first header, duplicate sequence names, non-ASCII bytes): the '
+        'model mirrors the code (edge stream), no theorem beyond C13_text_records; blank lines anywhere are inside the class '
+        '(skipped since fix 784419a; C13_scan holds for every list of lines)',
+        'exclude rows with end <= start: outside the precondition (a zero-width row inside a run trips `assert gap > 0`), '
+        'model mirrors the code',
+    ]
     if not ck.build_status.get('driver_ok'):
         raise RuntimeError('model driver unavailable')
     check_scanner(ck, scratch)
     check_join(ck)
     check_names(ck)
+    check_text(ck, scratch)
+    check_sequence(ck)
     check_pipeline(ck, scratch)
 
 
@@ -343,6 +657,37 @@ def replay(ck, body):
             exp = not py_noncanonical(case['name'])
             print('is_canonical_contig_name(%r) ->' % case['name'], got, 'expected', exp)
             bad = got != exp
+        elif 'text' in case and 'excludes' in case:
+            exrows_all = [[tuple(r) for r in rows] for rows in case['excludes']]
+            got = run_access(d, case['text'], exrows_all, case['min_gap'], case['skip_noncanonical'])
+            if case.get('valid', True) and case.get('seqs') is not None:
+                exp = bitmap_expect([tuple(x) for x in case['seqs']], exrows_all, case['min_gap'], case['skip_noncanonical'])
+            else:
+                m = vlib.model_call('c13_access_text', [case['min_gap'], case['skip_noncanonical'], case['text'],
+                                                        [[list(r) for r in rows] for rows in exrows_all]])
+                exp = m if isinstance(m, Err) else [tuple(x) for x in m]
+            print('do_access ->', got, 'expected', exp)
+            bad = got != exp
+        elif 'text' in case:
+            pth = os.path.join(d, 'r.fa')
+            write_text(pth, case['text'])
+            got = code_regions_flat(pth)
+            exp = body.get('expected')
+            if exp is None:
+                m = vlib.model_call('c13_regions_text', case['text'])
+                exp = m if isinstance(m, Err) else [list(x) for x in m]
+            print('get_regions ->', got, 'expected', exp)
+            bad = isinstance(got, Err) or json.loads(json.dumps(got)) != json.loads(json.dumps(exp))
+        elif 'runs' in case:
+            from cnvlib import access
+            from skgenome import GenomicArray as GA
+            ga = GA.from_rows([('chr1', s, e) for s, e in case['runs']])
+            for ex in case['excls']:
+                ga = ga.subtract(GA.from_rows([('chr1', s, e) for s, e in ex]))
+            got = [[int(s), int(e)] for _, s, e in access.join_regions(ga, case['gap'])]
+            exp = body.get('expected')
+            print('subtract + join_regions ->', got, 'expected', exp)
+            bad = got != json.loads(json.dumps(exp))
         elif 'records' in case:
             from cnvlib import access
             fa = os.path.join(d, 'p.fa')
